@@ -49,6 +49,11 @@ ASSUMPTIONS = [
     "mechanical plunger lane rests there until the world's player plunges it (<= 40 s)",
     "Gottlieb trough: capacity == balls installed; the ball that fills it rests on the entrance switch until a ball "
     "is ejected, then the switch opens 50-150 ms later; drains into it are spaced around settle_time / full timeout",
+    "coil test: the harness pulses a trough/lock eject coil 1-3 times through the public Driver API while the device "
+    "is most likely idle; balls kicked out that way may leave playfield.balls negative until exit_count_delay + "
+    "idle_missing_ball_timeout (+1.5 s) after the last such pulse of that device",
+    "no ball enters an entrance-counted device during the 10-80 ms in which an ejected ball is on its way out (an "
+    "entrance switch cannot tell such a ball from one that fills the device)",
     "ball search is left at its default (disabled); a loose ball at a rest point sits still (no switch hits)",
 ]
 HORIZONS = {"rest_horizon_virtual_s": 200, "settle_cap_virtual_s": 4000}
